@@ -19,7 +19,7 @@ DRIVERS = {
     'utf8': ['decoder', 'scalars', 'utils'], 'input': ['decoder', 'scalars'], 'utils': ['utils', 'autocomplete', 'editor'],
     'token': ['token'], 'arguments': ['token'], 'command': ['token', 'cli'], 'help': ['token', 'cli'],
     'editor': ['editor', 'cli'], 'history': ['history', 'cli'], 'autocomplete': ['autocomplete', 'cli'],
-    'tmpl_autocomplete': ['cli', 'derive_hidden'], 'tmpl_group_autocomplete': ['derive_hidden', 'cli'], 'tmpl_group_help': ['derive_fail', 'derive_help', 'cli'], 'writer': ['writer', 'cli'], 'cli': ['cli'], 'builder': ['cli'], 'service': ['cli'],
+    'tmpl_autocomplete': ['cli', 'derive_hidden'], 'tmpl_group_autocomplete': ['derive_hidden', 'cli'], 'tmpl_group_help': ['derive_fail', 'derive_help', 'cli'], 'tmpl_command_help': ['derive_fail', 'derive_help'], 'writer': ['writer', 'cli'], 'cli': ['cli'], 'builder': ['cli'], 'service': ['cli'],
     'buffer': ['editor', 'history'], 'codes': ['cli'],
 }
 # drivers that accept a property filter
@@ -176,7 +176,7 @@ def attributed_functions(res):
     if d == 'writer':
         return ['writer::Writer::']
     if d in ('derive_fail', 'derive_help'):
-        return ['tmpl_group_help::', 'tmpl_group_autocomplete::', 'tmpl_autocomplete::']
+        return ['tmpl_group_help::', 'tmpl_command_help::', 'tmpl_group_autocomplete::', 'tmpl_autocomplete::']
     return []
 
 
